@@ -153,7 +153,7 @@ def comp_check(ctx, defs):
             # unknown key at every dictionary node
             plain = ["zz_unknown"] + sorted(set(G.OMIT["programs"] + G.OMIT["methods"] + G.OMIT["simulation_settings"]))
             # name-aware stream: substrings / case variants / neighbours of every key, level name and omit key
-            derived = [x for x in G.derived_unknown_names(rng, defs, omit, ctx.pick(40, 300)) if x not in plain] if rep == 0 else []
+            derived = [x for x in G.derived_unknown_names(rng, defs, omit, ctx.pick(40, 200)) if x not in plain] if rep == 0 else []
             for node in G.dict_nodes(d):
                 for name in plain + derived:
                     if name in get_or_empty(d, node):
@@ -180,7 +180,7 @@ def comp_check(ctx, defs):
         (lvl, d, omit) = rng.choice(level_defaults(defs))
         jobs.append((omit, d, G.user_subset(rng, d, rng.random()), "ok", {"level": lvl, "class": "valid-subset"}))
     # generic pairs
-    for _ in range(ctx.pick(1500, 40000)):
+    for _ in range(ctx.pick(1500, 30000)):
         d = G.rand_tree(rng, 3)
         t = G.mutate_tree(rng, d) if rng.random() < 0.8 else G.rand_tree(rng, 3)
         om = rng.choice([[], [], ["programs"], ["default_parameters", "quantification_parameters"], ["a"]])
@@ -992,7 +992,7 @@ def near_names(ctx, defs, run):
     resolves to exactly its own file in every file order."""
     rng = ctx.rng
     df = T.DEF_FILES
-    for k in range(ctx.pick(14, 120)):
+    for k in range(ctx.pick(14, 80)):
         for _ in range(60):
             files = gen_scenario(rng, defs, rng.choice([2, 3]))
             meths = [(i, nm) for i, (kk, nm, _) in enumerate(files) if kk == "method" and any(c.isalpha() for c in nm)]
